@@ -15,7 +15,9 @@ from vf.bounded import Tally
 from vf.pyvc import extract
 
 MOD = "debian.deb822"
-NAMES = ["gcc", "libfoo1", "a", "0ad", "g++", "lib-x.y+z", "python3.11"]
+NAMES = ["gcc", "libfoo1", "a", "0ad", "g++", "lib-x.y+z", "python3.11",
+         # package names that are also architecture names / profile names / texts of whole lists used elsewhere in the same process
+         "i386", "amd64", "any", "linux-any", "nocheck", "stage1", "cross"]
 QUALS = [None, "any", "native", "amd64", "a-b"]
 OPS = ["<<", "<=", "=", ">=", ">>"]
 VERS = ["1", "1.0-1", "2:1.0~rc1+b1", "0.1-2-3", "1a.b", "2.7.STABLE9-4", "1.0~RC1", "1.0+B.a-Z9"]
